@@ -1,9 +1,26 @@
 PROP = {
     "num": 3,
-    "runs": [{"tag": "c03", "bin": "c03", "timeout": {"quick": 600, "thorough": 2400}}],
+    "runs": [
+        # drop-tracked identities (8 bytes, no heap payload); thorough: the depth-3 enumeration
+        {"tag": "c03", "bin": "c03", "timeout": {"quick": 600, "thorough": 2400}},
+        # the element types of the property's quantifier (same cases, `--elem`; in the thorough tier the
+        # depth-2 enumeration with the thorough seeded histories):
+        # drop-tracked WITH a heap payload: same identities, same model lines; a double drop is a double free
+        {"tag": "c03th", "bin": "c03", "args": ["--elem", "th"], "timeout": {"quick": 600, "thorough": 1200}},
+        # drop-tracked ZERO-SIZED elements: no identities, so no model lines; direct oracles on shapes,
+        # per-op created / dropped counts and the live count after every op and after the final drop
+        {"tag": "c03tz", "bin": "c03", "args": ["--elem", "tz"], "model": False, "timeout": {"quick": 600, "thorough": 1200}},
+        # plain u32 values without drop glue (the crate's needs_drop == false paths): values are the
+        # identities, "dropped" = vanished from the pool, so the model lines apply
+        {"tag": "c03u32", "bin": "c03", "args": ["--elem", "u32"], "timeout": {"quick": 600, "thorough": 1200}},
+        # heap-payload elements with the bin rebuilt under AddressSanitizer (nightly): double free /
+        # use-after-free abort the case that was running
+        {"tag": "c03th-asan", "bin": "c03", "args": ["--elem", "th", "--sanitize"], "tiers": ["thorough"],
+         "expect_cases": False, "timeout": 2400},
+    ],
     "mismatch_is_failing": True,
-    "rule": "a pool of real objects (stack GenericArray<Tr,N>, GenericArrayIter, Box<GenericArray>, Vec, Box<[T]>, single elements; N in 0..=12) driven through the real API, outputs of one op moved into the next: (a) exhaustive - from every single-object start (each kind, N in 0..=4) and every pair of arrays / array+element (N,M in 0..=3), every sequence of up to 2 (thorough 3) type-correct operations out of the 41 (incl. try_from_iter / try_boxed_from_iter of a Vec of any length L into every target length 0..=L+2; all slots, split points, indices, dividing chunk lengths, skip counts up to one past the end; generate of length 0..=3, thorough 0..=2), then observe + drop of everything; (a') all lengths - from every start with N (and M) in 0..=12 every single operation: every (N,K) split, every (N,M) concat with N+M<=12, every dividing (NM,N) unflatten, every remove index, tuples and native arrays up to 12; (b) typing - every op code on every kind of object, on a cleared slot, on a missing slot, and with the same slot twice; (c) seeded histories (quick 600 x 12 ops + 100 x 40; thorough 5000 x 40 + 20000 x 12 + 200 x 150; about 5% ill-typed ops, skip counts up to usize::MAX). distinct = distinct CASE lines; non-trivial = at least two operations and at least one element dropped, observed or moved into a new object during the history",
-    "nontrivial": lambda case, obs: len(case.split()) >= 5 and len(obs.split()) >= 12,
+    "rule": "element kinds: Tr (drop-tracked id), Th (drop-tracked id + heap payload, also under AddressSanitizer in the thorough tier), Tz (drop-tracked zero-sized; count oracles instead of model lines), plain u32 without drop glue - each kind runs the same cases (thorough: depth 3 for Tr only). Cases: a pool of real objects (stack GenericArray<T,N>, GenericArrayIter, Box<GenericArray>, Vec, Box<[T]>, single elements; N in 0..=12) driven through the real API, outputs of one op moved into the next: (a) exhaustive - from every single-object start (each kind, N in 0..=4) and every pair of arrays / array+element (N,M in 0..=3), every sequence of up to 2 (thorough 3) type-correct operations out of the 41 (incl. try_from_iter / try_boxed_from_iter of a Vec of any length L into every target length 0..=L+2; all slots, split points, indices, dividing chunk lengths, skip counts up to one past the end; generate of length 0..=3, thorough 0..=2), then observe + drop of everything; (a') all lengths - from every start with N (and M) in 0..=12 every single operation: every (N,K) split, every (N,M) concat with N+M<=12, every dividing (NM,N) unflatten, every remove index, tuples and native arrays up to 12; (b) typing - every op code on every kind of object, on a cleared slot, on a missing slot, and with the same slot twice; (c) seeded histories (quick 600 x 12 ops + 100 x 40; thorough 5000 x 40 + 20000 x 12 + 200 x 150; about 5% ill-typed ops, skip counts up to usize::MAX). distinct = distinct CASE lines; non-trivial = at least two operations and at least one element dropped, observed or moved into a new object during the history",
+    "nontrivial": lambda case, obs: len(case.split()) >= 5 and len(obs.split()) >= 8,
     "manifest": {
         "design_ref": "DESIGN.md section 7, C03",
         "text": "Theorems in Coq over the pool model of ownership histories (stack arrays, by-value iterators, boxed arrays, Vecs, boxed slices, caller-held elements; 39 operations: generate, collect, into_iter, next/next_back/nth/nth_back, iterator and array clone, drop, map/zip/fold, iterator fold/rfold/count/last, append/prepend/pop_back/pop_front/split/concat/remove/swap_remove, flatten/unflatten, native-array and tuple round trips, Vec/Box/Box<[T]> conversions, observe): every step conserves ownership (owned-after + dropped is a permutation of owned-before + created), so for every finite history from the empty pool, with what is left dropped last, the drops are a permutation of the pairwise-distinct elements ever created - each element is dropped exactly once - and no view ever shows an element after it was dropped. Tie to the code: the extracted model vs the real crate on a pool of real by-value objects with identity-carrying drop-logging elements, chained (exhaustive short histories from every kind of start + every op on every kind of object + seeded long histories), comparing per operation the validity, the sorted ids dropped, the ids observed and the shapes and contents of every new object; direct oracles for observation after drop, per-identity drop count != 1 at the end (double drop / leak) and panics.",
